@@ -271,7 +271,9 @@ class Call(Leaf):
         return self.name
 
     def is_nullable(self) -> bool:
-        return self.grammar.rulemap[self.name]._nullable
+        # NOTE an undefined rule is reported later, as a GrammarError
+        rule = self.grammar.rulemap.get(self.name)
+        return rule is not None and rule._nullable
 
     def optimized(self) -> Call:
         if not self._rule or not isinstance(self._rule.exp, Call):
